@@ -1081,6 +1081,8 @@ def _form_case(c, form, pcs):
     when the argument is omitted) and the proxy sizes through which the model evaluates the call"""
     c = dict(c)
     ig, fcs, fvf = form
+    if c['op'] == 'istream':
+        c['strs'] = _cap_model_cost(c['strs'], c['map'], c.pop('heavy', False))
     c['form'] = [1 if ig else 0, fcs, fvf]
     c['cs'] = DEFAULT_CS if fcs is None else fcs
     pcs = max(1, pcs)
@@ -1091,6 +1093,22 @@ def _form_case(c, form, pcs):
     else:
         c['proxy'] = [pcs, 1]
     return c
+
+
+def _cap_model_cost(strs, m, heavy):
+    """the list model writes a value buffer of B bytes in O(B) per byte, and the proxy buffer is as long as the longest
+    mapped entry: a case costs about B x (sum of the mapped entries' lengths) steps. Entries of several KB mapped by long
+    maps are kept in the designated heavy cases only; elsewhere the longest mapped entries are shortened until the
+    case costs about 6 x 10^5 steps (e.g. one 750-byte entry mapped once, or a 53-byte entry mapped 200 times)"""
+    cap = 1.5e7 if heavy else 6.0e5
+    strs = list(strs)
+    rows = [k for k in m if k is not None and 0 <= k < len(strs)]
+    for _ in range(200):
+        if not rows or max(len(strs[k]) for k in rows) * sum(len(strs[k]) for k in rows) <= cap:
+            break
+        k = max(rows, key=lambda r: len(strs[r]))
+        strs[k] = strs[k][:len(strs[k]) * 3 // 4]
+    return strs
 
 
 def _forms(op, rot, n, K=None):
@@ -1132,10 +1150,11 @@ def _gen_callforms(big, rng):
                         if rep and [k for k in m if k is not None]:     # the long entry is a MAPPED one
                             lens[[k for k in m if k is not None][rot % len([k for k in m if k is not None])]] = \
                                 [53, 8 * n + 1, 16 * n + 5, 300, 1000, 3000][rot % 6]
-                        c = {'op': 'istream', 'strs': _strs(lens), 'map': m, 'inv': inv, 'kwinv': rot % 4 == 0}
+                        c = {'op': 'istream', 'strs': _strs(lens), 'map': m, 'inv': inv, 'kwinv': rot % 4 == 0,
+                             'heavy': rot % 40 == 0 and big}
                         if inv == 0 and rot % 2:
                             c['mdt'] = 'int64'
-                        yield _form_case(c, [0 if inv == 0 and rot % 5 < 3 else 1, cs_, vf_], 1 + rot % 5)
+                        yield _form_case(c, [0 if inv == 0 and rot % 5 < 3 else 1, cs_, vf_], [1, 2, 3, 4, 16][rot % 5])
                 for cs_, vf_ in _forms('stream', rot, n):
                     rot += 1
                     inv = rot % 3
@@ -1168,13 +1187,21 @@ def _gen_callforms(big, rng):
         if shape == 'all-invalid':
             m = [None] * n
         elif via or rng.random() < 0.6:
-            m, cur = [], rng.randrange(Ls) if shape == 'short-map' else 0
+            m, cur, gap = [], rng.randrange(Ls) if shape == 'short-map' else 0, False
             for _ in range(n):
                 if rng.random() < 0.25:
                     m.append(None)
+                    gap = True
                 else:
-                    cur = min(Ls - 1, cur + rng.choice([0, 1, 1, 2, Ls // 2]))
+                    step = rng.choice([0, 1, 1, 2, Ls // 2])
+                    if via and gap and m and step == 0 and any(x is not None for x in m):
+                        step = 1        # an unmatched key of an ordered join lies strictly between two right rows
+                    if cur + step > Ls - 1 and via and gap and any(x is not None for x in m):
+                        m.append(None)
+                        continue
+                    cur = min(Ls - 1, cur + step)
                     m.append(cur)
+                    gap = False
         else:
             m = [None if rng.random() < 0.25 else rng.randrange(Ls) for _ in range(n)]
         sel = 'istream' if (k % 3 or via == 'merge') and via != 'session' else 'stream'
@@ -1200,11 +1227,11 @@ def _gen_callforms(big, rng):
                 lens[rng.randrange(Ls)] = big_one
             if sum(lens) > 40000:
                 lens = [x if x > 64 and i % 7 == 0 else min(x, 9) for i, x in enumerate(lens)]
-            c.update({'op': 'istream', 'strs': _strs(lens)})
+            c.update({'op': 'istream', 'strs': _strs(lens), 'heavy': k % 50 == 7})
         else:
             kind = rng.choice(['int32'] + NUM_KINDS + ([] if via == 'session' else ['S3']))
             c.update({'op': 'stream', 'kind': kind, 'data': _vals(kind, Ls)})
-        yield _form_case(c, [ig, form[0], form[1]], rng.choice([1, 2, 3, 5, 8, max(1, n), n + 1]))
+        yield _form_case(c, [ig, form[0], form[1]], rng.choice([1, 2, 3, 5, 8, 16, min(64, max(1, n))]))
     # -- empty sources (only all-invalid / empty maps are in range)
     for n in (0, 1, 2, 5):
         for inv in (0, 1, 2):
